@@ -396,7 +396,7 @@ func init() {
 			if tier == "thorough" {
 				sd = 3
 			}
-			for _, sp := range [][2]int{{1, 0}, {0, 1}, {2, 0}, {3, 0}, {0, 3}, {1, 2}} {
+			for _, sp := range [][2]int{{1, 0}, {0, 1}, {2, 0}, {3, 0}, {0, 3}, {1, 2}, {4, 0}, {0, 4}} {
 				tasks = append(tasks, Task{Level: "spelling", Name: fmt.Sprintf("spelling %d then %d", sp[0], sp[1]), Fn: c07SpellingTask(defaultCfg, sp[0], sp[1], sd)})
 			}
 			rcfgs := []Cfg{defaultCfg}
